@@ -1,3 +1,7 @@
 // ---- prelude std.rs: assumed contracts on core/std functions that vstd does not specify ----
 pub assume_specification<T, E> [Result::<T, E>::unwrap_or] (r: Result<T, E>, default: T) -> (v: T)
     ensures v == (match r { Ok(x) => x, Err(_) => default });
+use std::io;
+#[verifier::external_type_specification]
+#[verifier::external_body]
+pub struct ExIoError(std::io::Error);
